@@ -66,6 +66,14 @@ Definition extract_k (g : its) (k : nat) : its :=
   | _ => induced_sub g (knn g (node_ids (get_rc g)) k)
   end.
 
+(** ** Vocabulary of the theorems: distance in the ITS
+    [walk g s n m]: a walk of exactly m bonds from s to n;  [dist_le g S k n]: n is within k bonds of the set S *)
+Inductive walk (g : its) : N -> N -> nat -> Prop :=
+| walk_here s : walk g s s O
+| walk_step s u n m : walk g s u m -> adj g u n <> None -> walk g s n (S m).
+Definition dist_le (g : its) (seeds : list N) (k : nat) (n : N) : Prop :=
+  exists s m, In s seeds /\ (m <= k)%nat /\ walk g s n m.
+
 (** ** Observables (DESIGN Appendix B, C02): centre nodes + attributes, centre edges, the centre of
     the centre, and for k = 0..3 the node set and the edge set of extract_k *)
 Definition tpairs (es : list (N * N * iedge)) : tok :=
